@@ -514,6 +514,7 @@ func runGROWSIBS(c *Ctx) {
 	}
 	// relation under which the test answers true (looking through a helper whose answer it passes on)
 	testRel := map[string]ssa.Instruction{}
+	testCond := map[string]ssa.Value{}
 	var relFn *ssa.Function
 	var trueRel func(fn *ssa.Function, depth int)
 	trueRel = func(fn *ssa.Function, depth int) {
@@ -534,6 +535,7 @@ func runGROWSIBS(c *Ctx) {
 				for _, f := range ir.FactsAt(r.Block()) {
 					if rel, ok := layerHeightRel(c, f.Cond, f.Truth); ok {
 						testRel[rel] = r
+						testCond[rel] = f.Cond
 						relFn = fn
 						found = true
 					}
@@ -554,6 +556,7 @@ func runGROWSIBS(c *Ctx) {
 			for _, f := range ir.ExpandFacts([]ir.Fact{{Cond: rv, Truth: true, From: r.Block()}}) {
 				if rel, ok := layerHeightRel(c, f.Cond, f.Truth); ok {
 					testRel[rel] = r
+					testCond[rel] = f.Cond
 					relFn = fn
 				}
 			}
@@ -576,6 +579,59 @@ func runGROWSIBS(c *Ctx) {
 					c.OK(P.InstrPos(cs), fmt.Sprintf("argument %d of %s", pi, relFn.Name()), "the tree's height", false)
 				} else {
 					c.Violation(cs.Parent(), P.InstrPos(cs), "growth test not given the tree's height", "the height the test compares key layers with must be Mast.height")
+				}
+			}
+		}
+	}
+	// ... or the test is handed the tree and reads Mast.height itself (`func (m *Mast) canGrow(node)`): the tree it reads
+	// it from is the one its callers are working on
+	if relFn != nil {
+		var rels []string
+		for rel := range testCond {
+			rels = append(rels, rel)
+		}
+		sort.Strings(rels)
+		for _, rel := range rels {
+			bin, _ := testCond[rel].(*ssa.BinOp)
+			if bin == nil {
+				continue
+			}
+			for _, opd := range []ssa.Value{bin.X, bin.Y} {
+				if !mastFieldLoad(opd, "height") {
+					continue
+				}
+				v := opd
+				for {
+					if cv, isCv := v.(*ssa.Convert); isCv {
+						v = cv.X
+					} else if ct, isCt := v.(*ssa.ChangeType); isCt {
+						v = ct.X
+					} else {
+						break
+					}
+				}
+				tree := ir.ResolveCell(v.(*ssa.UnOp).X.(*ssa.FieldAddr).X)
+				prm, isPrm := tree.(*ssa.Parameter)
+				pi := -1
+				for i, p := range relFn.Params {
+					if isPrm && p == prm {
+						pi = i
+					}
+				}
+				if pi < 0 {
+					c.Undecided(relFn, P.InstrPos(testRel[rel]), "growth test reads the height of a tree it was not handed", "the height the test compares key layers with must be the height of the tree being inserted into; "+relFn.Name()+" reads it from "+pathDesc(ir.Sym(tree)))
+					continue
+				}
+				for _, cs := range P.Callers[relFn] {
+					args := cs.Common().Args
+					if cs.Common().IsInvoke() || pi >= len(args) {
+						continue
+					}
+					if ap, isP := ir.ResolveCell(args[pi]).(*ssa.Parameter); isP && ir.IsPtrToNamed(ap.Type(), "Mast") {
+						c.OK(P.InstrPos(cs), fmt.Sprintf("argument %d of %s (the tree whose height it reads)", pi, relFn.Name()), "the caller's own tree", false)
+					} else {
+						c.Violation(cs.Parent(), P.InstrPos(cs), "growth test not given the tree's height", "the height the test compares key layers with must be Mast.height of the tree being inserted into; the tree handed to "+relFn.Name()+" is "+pathDesc(ir.Sym(args[pi])))
+					}
 				}
 			}
 		}
